@@ -515,7 +515,7 @@ impl Trace {
                             _ => return Err(format!("unknown run key {k}")),
                         }
                     }
-                    if r.knobs.slots == 0 || r.knobs.slots > 64 || r.knobs.preempt > 100 || r.knobs.heap > 255 {
+                    if r.knobs.slots == 0 || r.knobs.slots > 64 || r.knobs.preempt > 100 || r.knobs.heap > 255 || r.knobs.guard > 2 {
                         return Err(format!("bad knobs: {l}"));
                     }
                     cur = Some(r);
@@ -1158,7 +1158,16 @@ pub fn generate(seed: u64, prof: Profile, miri: bool) -> RunTrace {
         iso: if miri { 0 } else { u64::from(r.pct(35)) * r.range(1, 2) },
         repeat: if miri { 1 } else { u64::from(r.pct(50)) },
         stress: 0,
-        guard: if miri { 0 } else { u64::from(r.pct(match prof { Profile::Safety => 30, Profile::Independence => 10, _ => 5 })) },
+        guard: if miri {
+            0
+        } else {
+            // 1 = blocks end at a guard page (over-runs), 2 = blocks start behind one (under-runs)
+            u64::from(r.pct(match prof {
+                Profile::Safety => 30,
+                Profile::Independence => 10,
+                _ => 5,
+            })) * if r.pct(75) { 1 } else { 2 }
+        },
         scn: 0,
     };
     // a third of the native runs and two thirds of the Miri workloads are contention scenarios
